@@ -84,6 +84,14 @@ class SigDirector:
         return self.instances[i]
 
     def make_filter(self, spec: dict[str, Any]) -> Any:
+        f = self.make_filter_fn(spec)
+        if f is not None and spec.get("obj"):
+            from .kernel import CallableObject
+
+            return CallableObject(f, falsy=spec["obj"] == "falsy")
+        return f
+
+    def make_filter_fn(self, spec: dict[str, Any]) -> Any:
         k = spec["k"]
         if k == "all":
             return None
